@@ -51,7 +51,7 @@ func (rt *runtime) newRegExpObject(pattern string, flags string) *object {
 
 	re2pattern, err := parser.TransformRegExp(pattern)
 	if err != nil {
-		panic(rt.panicTypeError("Invalid regular expression: %s", err.Error()))
+		panic(rt.panicSyntaxError("Invalid regular expression: %s", err.Error()))
 	}
 	if len(re2flags) > 0 {
 		re2pattern = fmt.Sprintf("(?%s:%s)", re2flags, re2pattern)
